@@ -53,6 +53,7 @@ class ObjModel(object):
             self.space.add("minor", tuple(minors))
         self.ev = Evaluator(ctx, self.space)
         self.ev.regex_on_tables = True  # a regex applied to constant / table strings (value names) is evaluated on them
+        self.ev.reverse_sets = map_order == "reversed"
         self.st = self.ev.new_state()
         if pins:
             for s, vals in pins.items():
